@@ -36,6 +36,10 @@ CFGS = [
     {"sigalg": "none", "reg": "dynamic", "allow_none": False, "skew": 0, "missing_kid": False},
     {"sigalg": None, "reg": "static", "allow_none": True, "skew": 0, "missing_kid": True},
     {"sigalg": "RS256", "reg": "dynamic", "allow_none": True, "skew": 60, "missing_kid": False},
+    # the relying party's state exported and imported into a freshly built client (default settings) before anything is verified:
+    # what was configured — a zero clock skew, the registered algorithm — is part of that state
+    {"sigalg": "RS256", "reg": "dynamic", "allow_none": False, "skew": 0, "missing_kid": False, "restored": True},
+    {"sigalg": "ES256", "reg": "static", "allow_none": False, "skew": 0, "missing_kid": False, "restored": True},
 ]
 MUT = {
     "iss": ["absent", "J", "unknown", "list"],
@@ -65,6 +69,10 @@ def cases(rng, tier):
         for pi in range(len(PATHS)):
             for m in (singles if tier != "quick" else rng.sample(singles, 12) + [{}]):
                 out.append({"t": "idt", "cfg": ci, "path": pi, "mut": m, "signer": m.get("signer", base_signer(ci))})
+    # a second authorization response for a state whose exchange was already completed (RS256 settings: the fake provider signs with its RSA key)
+    for ci in (0, 1):
+        for m in [{}, {"nonce": "absent"}, {"nonce": "other-flow"}, {"nonce": "wrong"}, {"iss": "J"}, {"aud": "other"}, {"signer": "foreign-rsa"}, {"exp": "past"}]:
+            out.append({"t": "idt", "cfg": ci, "path": 0, "mut": m, "signer": m.get("signer", base_signer(ci)), "after_exchange": True})
     keys = list(MUT)
     for _ in range(npair):
         ks = rng.sample(keys, rng.choice([2, 2, 3]))
@@ -91,11 +99,38 @@ def corpus():
     return out
 
 
-def rp_for(ci):
+def rp_for(ci, fake_op=False):
+    if fake_op:
+        # a relying party that can talk to a (fake) provider: used to complete a genuine exchange before the case's response arrives
+        if ("fake", ci) not in _rps:
+            import c09
+            c = CFGS[ci]
+            _rps[("fake", ci)] = rpbase.make_rp(sigalg=c["sigalg"], allow_none=c["allow_none"], skew=c["skew"], missing_kid=c["missing_kid"], reg=c["reg"],
+                                                 httpc=c09.FakeOP(ISS))
+        return _rps[("fake", ci)]
     if ci not in _rps:
         c = CFGS[ci]
-        _rps[ci] = rpbase.make_rp(sigalg=c["sigalg"], allow_none=c["allow_none"], skew=c["skew"], missing_kid=c["missing_kid"], reg=c["reg"])
+        rp = rpbase.make_rp(sigalg=c["sigalg"], allow_none=c["allow_none"], skew=c["skew"], missing_kid=c["missing_kid"], reg=c["reg"])
+        if c.get("restored"):
+            store = rp.get_context().dump()
+            fresh = rpbase.make_rp()          # nothing of the configuration above: defaults
+            fresh.get_context().load(store)
+            rp = fresh
+        _rps[ci] = rp
     return _rps[ci]
+
+
+_default_skew = None
+
+
+def expected_skew(cfg):
+    """what the CONFIGURATION says (not what the client object happens to hold): the configured value, else the library's default"""
+    global _default_skew
+    if cfg["skew"] is not None:
+        return cfg["skew"]
+    if _default_skew is None:
+        _default_skew = rpbase.make_rp().get_context().clock_skew
+    return _default_skew
 
 
 def _begin(rp, rt):
@@ -164,10 +199,20 @@ def build(c, nonce, other_nonce, rt, skew):
 def impl(c):
     cfg = CFGS[c["cfg"]]
     path, rt = PATHS[c["path"]]
-    rp = rp_for(c["cfg"])
+    rp = rp_for(c["cfg"], fake_op=bool(c.get("after_exchange")))
     ctx = rp.get_context()
     clock.CLOCK.t = T0
     state, nonce = _begin(rp, rt)
+    if c.get("after_exchange"):
+        # the exchange for this state is completed first (authorization response, token request, userinfo — all genuine); the case's
+        # response then arrives as a SECOND authorization response for the same state
+        op = rp.httpc
+        flow = {"iss": ISS, "user": "alice", "rt": rt, "state": state, "nonce": nonce}
+        gcode = op.code_for(flow)
+        op.plan = {}
+        rp.finalize({"code": gcode, "state": state, "id_token": op.idtoken(nonce, "sub-alice", code=gcode)})
+    _before = ctx.cstate.get(state).get("__verified_id_token") if c.get("after_exchange") else None
+    _before = _before.to_dict() if hasattr(_before, "to_dict") else _before
     _, other_nonce = _begin(rp, "code id_token")
     claims, code, at = build(c, nonce, other_nonce, rt, cfg["skew"])
     tok = rpbase.sign(claims, c["signer"], c["mut"].get("kid", "ok"), c["mut"].get("header_alg"))
@@ -177,7 +222,7 @@ def impl(c):
     if at:
         params.update({"access_token": at, "token_type": "Bearer"})
     svc0 = rp.get_service("authorization" if path in ("authz", "msg-authz") else "accesstoken")
-    obs = {"claims": claims, "sent_nonce": nonce, "nonces": [nonce, other_nonce], "supplied_sigalg": svc0.gather_verify_arguments().get("sigalg", "-"), "with_code": bool(code), "with_at": bool(at), "skew": ctx.clock_skew, "alg": rpbase.unb64(tok.split(".")[0]).get("alg")}
+    obs = {"claims": claims, "sent_nonce": nonce, "nonces": [nonce, other_nonce], "supplied_sigalg": svc0.gather_verify_arguments().get("sigalg", "-"), "with_code": bool(code), "with_at": bool(at), "skew": expected_skew(cfg), "observed_skew": ctx.clock_skew, "alg": rpbase.unb64(tok.split(".")[0]).get("alg")}
     try:
         if path == "authz":
             svc = rp.get_service("authorization")
@@ -212,7 +257,13 @@ def impl(c):
         obs["r"] = "rejected"
         obs["how"] = type(e).__name__
     st = ctx.cstate.get(state) if path in ("authz", "token") else {}
-    obs["stored"] = "__verified_id_token" in st
+    if c.get("after_exchange"):
+        # a verified token was there already (the genuine exchange): "stored" = the case's response replaced it
+        now_ = st.get("__verified_id_token")
+        now_ = now_.to_dict() if hasattr(now_, "to_dict") else now_
+        obs["stored"] = now_ != _before
+    else:
+        obs["stored"] = "__verified_id_token" in st
     STATS[obs["r"]] += 1
     return obs
 
